@@ -212,6 +212,19 @@ func followFullDropEmit(k int) scenario {
 		add(op{S: 0, K: "waithandled", V: 12}).sc
 }
 
+// The adapter has ended (a follow-up that does not decode, or whose handler fails),
+// nobody takes from clientInputs any more; 11+extra further follow-ups fill its 10
+// slots and park the reader with one message in its hand. Then the service ends the
+// stream: the write loop sends the normal close and has to release the parked reader
+// (close(done)) -- closing the connection does not wake a goroutine in a channel send.
+func badFollowFullEnd(kind string, p, extra int) scenario {
+	return newB(kind+"-follow-full+end", 1, 1).open(0, 0).lock(0, 0, 1, p).
+		add(op{S: 0, K: kind, C: 0}).
+		add(op{S: 0, K: "sendn", C: 0, V: 11 + extra}).
+		add(op{S: 0, K: "waitblocked"}).
+		end(0, 0).recv(0).sc
+}
+
 // k requests of one session share ONE stop channel (the documented bidirectional use).
 // The stoppers are held at the schedule point stream.stopperClose (right before
 // close(stopServiceChan)); with the mutex around test-and-close only one of them can
@@ -303,6 +316,7 @@ func corpus() []interface{} {
 		badFollow("bad", 1, "emit", true),  // F18: send on closed outChan
 		badFollow("bad", 1, "end", true),   // F18: close of closed outChan
 		badFollow("bad", 0, "leave", false), // F18: stop never signalled
+		badFollowFullEnd("bad", 1, 0),       // reader parked behind an ended adapter when the service ends the stream
 		followFullDropEmit(3),              // reader leaves through done: clientInputs must still be closed
 		stopShared(2, "close"),             // two stoppers, one stop channel: test-and-close is one critical section
 		followFull(0, "end"),               // F19: reader blocked in its send when clientInputs is closed
@@ -389,6 +403,7 @@ func genAll(rng *rand.Rand, tier string) []interface{} {
 	if !quick {
 		add(followFullDropEmit(2 + rng.Intn(3)))
 	}
+	add(badFollowFullEnd([]string{"bad", "herr"}[rng.Intn(2)], rng.Intn(3), rng.Intn(3)))
 	add(stopShared(2, "close"))
 	add(stopShared(3, "drop"))
 	if !quick {
